@@ -230,7 +230,9 @@ def run(tier, seed):
     menu = MENU
     explore.pmap(_bfs_shard, [(m, menu, depth) for m in menu], rep, seed)
     if not quick:
-        core = EARLY + PROBES + ["2 ", "_", ":", "3ɾ,", "λn;†", "@f|n;@f;", "2ɾƛn;", "W"]
+        # depth 4 over a 35-statement core (every second early-exit statement, three probes, three atoms): 35^4 = 1.5M histories
+        # before dedup (the full 69-statement core took 100 minutes)
+        core = EARLY[::2] + PROBES[:3] + ["2 ", "_", "3ɾ,", "λn;†"]
         explore.pmap(_bfs_shard, [(m, core, 4) for m in core], rep, seed)
     b = rep.sections.get("bfs", {})
     rep.extra.update({
